@@ -7,7 +7,15 @@ for s in "$@"; do
   git -C /repo worktree remove --force $wt >/dev/null 2>&1
   git -C /repo worktree add --detach $wt HEAD >/dev/null 2>&1
   git -C $wt apply /verif/seeded/$s/patch.diff || { echo "$s: patch does not apply"; continue; }
-  failed=$(cd $wt && go test -count=1 ./... 2>&1 | grep '^FAIL\s' | awk '{print $2}' | sort -u)
+  # VERIF_SEEDSUITE_FOCUS=1: only the changed packages and the packages built on them (much faster under load)
+  pk="./..."
+  if [ -n "$VERIF_SEEDSUITE_FOCUS" ]; then
+    pk=$(git -C $wt diff --name-only | xargs -n1 dirname | sort -u | sed 's#^#./#' | tr '\n' ' ')
+    case "$pk" in *pkg/eval*|*pkg/persistent*|*pkg/parse*|*pkg/glob*|*pkg/strutil*|*pkg/diag*) pk="$pk ./pkg/eval/... ./pkg/mods/... ./pkg/shell/";; esac
+    case "$pk" in *pkg/cli*|*pkg/ui*|*pkg/edit*|*pkg/eval*|*pkg/parse*) pk="$pk ./pkg/edit/... ./pkg/cli/...";; esac
+    case "$pk" in *pkg/store*|*pkg/rpc*|*pkg/daemon*) pk="$pk ./pkg/store/... ./pkg/daemon/... ./pkg/cli/histutil/";; esac
+  fi
+  failed=$(cd $wt && go test -count=1 $pk 2>&1 | grep '^FAIL\s' | awk '{print $2}' | sort -u)
   still=""
   for p in $failed; do (cd $wt && go test -count=1 $p >/dev/null 2>&1) || still="$still $p"; done
   if [ -z "$still" ]; then echo "$s: suite passes with the change (re-run alone: ${failed:-none})"; else echo "$s: SUITE FAILS with the change:$still"; fi
